@@ -952,10 +952,24 @@ func (w *vmWalker) stmt(s ast.Stmt, in []*vmState) []*vmState {
 						seen = append(seen, v)
 					}
 				} else if opAtom != "" {
+					// several values share the clause: one path per value, each knowing which it is
+					allConst := true
+					var vals []int64
 					for _, e := range cc.List {
 						if v, ok := constInt(info, e); ok {
-							seen = append(seen, v)
+							vals = append(vals, v)
+						} else {
+							allConst = false
 						}
+					}
+					seen = append(seen, vals...)
+					if allConst && len(vals) > 0 {
+						for _, v := range vals {
+							bv := st.clone()
+							bv.guards = append(bv.guards, Lit{Atom: opAtom, Rel: "==", Val: v})
+							out = append(out, w.stmts(cc.Body, []*vmState{bv})...)
+						}
+						continue
 					}
 				}
 				out = append(out, w.stmts(cc.Body, []*vmState{b})...)
